@@ -990,6 +990,10 @@ func (f *frame) applyCall(abs string, callee *ssa.Function, args, binds []*sym, 
 		res = f.inlineCall(callee, args, binds, st, reach, rt)
 	case c != nil && c.Inline && callee != nil && len(callee.Blocks) > 0 && vc.depth < 3:
 		res = f.inlineCall(callee, args, binds, st, reach, rt)
+	case c == nil && f.smallHelper(callee) && vc.depth < 3:
+		// a small loop-free function of the same package that nobody gave a contract to (typically a helper
+		// split off a function under contract): its body is executed in place
+		res = f.inlineCall(callee, args, binds, st, reach, rt)
 	case c == nil && callee == nil && f.funcSetCall(abs, args, st, reach, pos, rt) != nil:
 		res = f.lastFuncSetResult
 	case c == nil && valueOnlyLibrary(callee):
@@ -1468,7 +1472,10 @@ func (f *frame) execAppend(com *ssa.CallCommon, st *state, reach string, rt type
 // ---------- site assertions ----------
 
 func (f *frame) siteAsserts(kind, rel, when string, args, results []*sym, st *state, reach string, pos token.Pos) {
-	if f.c == nil || f.inlined && false {
+	// inside a helper executed in place (no contract of its own) the site assertions of the function under
+	// verification apply, except those addressed to a numbered site of that function
+	inHelper := f.c == nil && f.inlined && f.fn != nil && f.fn.Parent() == nil
+	if f.c == nil && !inHelper {
 		return
 	}
 	vc := f.vc
@@ -1488,7 +1495,7 @@ func (f *frame) siteAsserts(kind, rel, when string, args, results []*sym, st *st
 			continue
 		}
 		ord := f.curOrd
-		if sc.Ord >= 0 && sc.Ord != ord {
+		if sc.Ord >= 0 && (sc.Ord != ord || inHelper) {
 			continue
 		}
 		vc.sitesHit[sc]++
